@@ -1,7 +1,8 @@
 """C06 — a model can only hold what the language allows."""
 from __future__ import annotations
-import json, random
+import copy, json, random, traceback
 from ..common import Result, Violation, run_driver, canon_hash
+from .. import genexec
 from ..langgen import LangGen, lang_payload, build_lang, assoc_class_name
 from ..mhist import Impl, Gen, canon_obs, canon_out
 from ..genrun import Ref
@@ -15,6 +16,8 @@ ASSUMPTIONS = [
 TRUSTED = ['Lean 4.33 kernel', 'axioms: propext, Classical.choice, Quot.sound',
            'hand-written model Model/MState.lean: assocClasses, defensesOf, guards, addAsset, addAssociation (tied by this correspondence)',
            'harness/mhist.py, harness/props/c06.py']
+GC_EVERY = 4               # cases between two explicit collections of the dead library classes (see `run`)
+HIST_GEN_EVERY = 1         # every k-th history is also run on the generated code of the `model` domain (knob for the cost bound of the third column)
 WEIGHTS = {'add_asset': 10, 'add_association': 16, 'remove_asset': 1, 'remove_association': 1, 'lookup': 1}
 
 def class_inventory(spec):
@@ -114,8 +117,9 @@ def valid_state(im: Impl):
                 seen.add(key)
     return probs
 
-def run_history(spec, ops, mo_steps, res):
+def run_history(spec, ops, mo_steps, res, go_steps=None):
     im = Impl(spec)
+    gen_on = go_steps is not None
     for i, op in enumerate(ops):
         st = im.step(op)
         if st['err']: res.bump('rejected:' + st['err'])
@@ -126,7 +130,318 @@ def run_history(spec, ops, mo_steps, res):
             mo = mo_steps[i]
             a = [st['err'] is not None, canon_obs(st['obs'])]; b = [mo['err'] is not None, canon_obs(mo['obs'])]
             if a != b: return ('diverge', i, {'impl': a, 'model': b, 'impl_err': st['err'], 'model_err': mo['err']})
+            if gen_on:
+                # third column: the generated code of the `model` domain (Py/GenModel/*.lean, op `gen_model_hist`) on the same
+                # history, compared like the hand model: raises / does not raise, canonical state (the class is drift)
+                go = go_steps[i]
+                if go['err'] and go['err'].startswith('skip:'):
+                    gen_on = False; res.bump('generated_code_' + go['err'])      # outside what the prelude can express
+                else:
+                    res.bump('generated_code_steps_compared')
+                    g = [go['err'] is not None, canon_obs(go['obs'])]
+                    if a != g:
+                        return ('gen-diverge', i, {'impl': a, 'generated': g, 'hand_model': b, 'impl_err': st['err'], 'generated_err': go['err']})
+                    if st['err'] != go['err']: res.bump(f'generated-error-class-differs:{st["err"]}/{go["err"]}')
     return None
+
+# ---------------------------------------------------------------------------------------------------------------------
+# the third column (notes/NOTES_genexec2_classes.md): the GENERATED class factory (`lean/MalVerif/Py/GenClasses/Factory.lean`,
+# what `translators/py2lean_classes.py` makes of the current `classes_factory.py`) run by the driver op `gen_classes` and
+# compared with the real `LanguageClassesFactory`: the whole JSON schema with the insertion order of every dictionary and the
+# exact values, the answers of `get_association_by_signature`, the class table read off the generated schema, the error class.
+def ordered(x):
+    """a Python value as ORDERED JSON (the driver's `vToOrd` writes the generated value the same way): None / bool / int /
+    str as themselves, float -> {'f': repr}, list -> {'l': [...]}, tuple -> {'t': [...]}, dict -> {'d': [[key, value], ...]}
+    in insertion order (a key that is not a string is tagged with its type: it never equals a string key)"""
+    if x is None or isinstance(x, (bool, str)): return x
+    if isinstance(x, int): return x
+    if isinstance(x, float): return {'f': repr(x)}
+    if isinstance(x, list): return {'l': [ordered(v) for v in x]}
+    if isinstance(x, tuple): return {'t': [ordered(v) for v in x]}
+    if isinstance(x, dict): return {'d': [[k if isinstance(k, str) else f'<{type(k).__name__}>{k!r}', ordered(v)] for k, v in x.items()]}
+    return {'x': type(x).__name__}
+
+def lg_payload(lg):
+    """the real `LanguageGraph` object as the factory reads it: the asset objects (name, super assets by position in
+    `lg.assets`, attack steps with name / type / ttc) and the association objects (name; per field: asset, field name, maximum)"""
+    idx = {id(a): i for i, a in enumerate(lg.assets)}
+    fld = lambda f: [idx[id(f.asset)], f.fieldname, ordered(f.maximum)]
+    return {'assets': [{'name': a.name, 'supers': [idx[id(u)] for u in a.super_assets],
+                        'steps': [[st.name, st.type, ordered(st.ttc)] for st in a.attack_steps]} for a in lg.assets],
+            'assocs': [{'name': a.name, 'left': fld(a.left_field), 'right': fld(a.right_field)} for a in lg.associations]}
+
+def signatures(spec):
+    """queries for `get_association_by_signature`: every declaration (first, in declaration order), the same flipped, with
+    an unknown asset, with the ends of another declaration of the same name, an unknown name"""
+    decl = [[a['name'], a['leftAsset'], a['rightAsset']] for a in spec['associations']]
+    out = list(decl)
+    for n, l, r in decl:
+        for q in ([n, r, l], [n, l, 'NoSuchAsset']):
+            if q not in out: out.append(q)
+    for n, l, r in decl:
+        for n2, l2, r2 in decl:
+            if n2 == n and [n, l, r2] not in out: out.append([n, l, r2])
+    out.append(['NoSuchAssociation', 'T0', 'T0'])
+    return out
+
+def real_factory(lg, sigs):
+    """the real factory on the language graph `lg`: {'error': class of an exception raised by the factory's own code,
+    'pjs_error': class of an exception raised inside python_jsonschema_objects / jsonschema (the library is a parameter of the
+    translation: the schema is complete at that point and is compared), 'schema': ordered schema, 'sigs': answers, 'fac'}"""
+    from maltoolbox.language import LanguageClassesFactory
+    out = {'error': None, 'pjs_error': None, 'schema': None, 'sigs': None, 'fac': None}
+    try:
+        fac = LanguageClassesFactory(lg)
+    except Exception as e:
+        frames = traceback.extract_tb(e.__traceback__)
+        if not any('classes_factory' in f.filename for f in frames[-1:]):
+            # raised below `pjs.ObjectBuilder` / `build_classes`: what __init__ does, once more, keeping the object
+            out['pjs_error'] = type(e).__name__
+            fac = LanguageClassesFactory.__new__(LanguageClassesFactory)
+            fac.lang_graph = lg; fac.json_schema = {}
+            try: fac._create_classes()
+            except Exception: pass
+        else:
+            out['error'] = type(e).__name__; return out
+    out['fac'] = fac
+    out['schema'] = ordered(fac.json_schema)
+    out['sigs'] = []
+    for n, l, r in sigs:
+        try: out['sigs'].append({'cls': fac.get_association_by_signature(n, l, r)})
+        except Exception as e: out['sigs'].append({'error': type(e).__name__})
+    return out
+
+def first_difference(a, b, path='schema'):
+    """where two ordered values differ first (for the report)"""
+    if type(a) != type(b): return f'{path}: {json.dumps(a)[:80]} / {json.dumps(b)[:80]}'
+    if isinstance(a, dict):
+        if set(a) != set(b): return f'{path}: {json.dumps(a)[:80]} / {json.dumps(b)[:80]}'
+        for k in a:
+            if a[k] != b[k]: return first_difference(a[k], b[k], path if k in ('d', 'l', 't') else f'{path}.{k}')
+    if isinstance(a, list):
+        if a and isinstance(a[0], list) and len(a[0]) == 2 and isinstance(a[0][0], str):      # items of a dictionary
+            ka, kb = [e[0] for e in a], [e[0] for e in b]
+            if ka != kb: return f'{path}: keys {ka} / {kb}'
+            for (k, v), (_, w) in zip(a, b):
+                if v != w: return first_difference(v, w, f'{path}[{k!r}]')
+        if len(a) != len(b): return f'{path}: lengths {len(a)} / {len(b)}'
+        for i, (v, w) in enumerate(zip(a, b)):
+            if v != w: return first_difference(v, w, f'{path}[{i}]')
+    return f'{path}: {json.dumps(a)[:80]} / {json.dumps(b)[:80]}'
+
+def generated_differs(real, g, inventory=None, ndecl=0):
+    """the answer `g` of one side of `gen_classes` against the real factory `real`; `inventory` = (assets, assocs) the class
+    table to which the one read off the generated schema is compared (`Py/AbsClasses.lean`: schemaDefenses / schemaClassAt
+    under the class name the generated `get_association_by_signature` returns) - None: not compared.  Returns None or
+    (what, detail)"""
+    if 'langError' in g: return ('the language graph of the hand model raises', g['langError'])
+    if real['error'] or 'error' in g:
+        if real['error'] != g.get('error'): return ('on the exception of the factory', {'impl': real['error'], 'generated': g.get('error')})
+        return None
+    if real['schema'] != g['schema']:
+        return ('on the JSON schema', {'first_difference (impl / generated)': first_difference(real['schema'], g['schema'])})
+    gs = [{k: v for k, v in e.items() if k != 'class'} for e in g['sigs']]
+    if real['sigs'] != gs: return ('on get_association_by_signature', {'impl': real['sigs'], 'generated': gs})
+    if inventory is not None:
+        assets, assocs = inventory
+        if [list(r) for r in assets] != g['assets']:
+            return ('on the asset classes / default defenses read off the schema', {'impl': assets, 'generated': g['assets']})
+        gc = [e.get('class') for e in g['sigs'][:ndecl]]
+        if [list(r) for r in assocs] != gc:
+            return ('on the association classes read off the schema', {'impl': assocs, 'generated': gc})
+    return None
+
+# ---- languages the generators of the property never draw: the error behaviour and the odd corners of the factory
+def _bare(r):
+    """a generated language without step expressions (so that every mutation below still gives a language graph)"""
+    spec = LangGen(r, knobs={'dup_assoc_names': 0.5, 'zero_mult': 0.12, 'composite_def_ttc': 0.3, 'same_field_both_ends': 0.1}).gen()
+    for a in spec['assets']:
+        a['variables'] = []
+        for st in a['attackSteps']:
+            st['reaches'] = None; st['requires'] = None
+            if st['type'] in ('exist', 'notExist'): st['type'] = 'or'
+    return spec
+
+def _a_defense(r, spec):
+    ds = [st for a in spec['assets'] for st in a['attackSteps'] if st['type'] == 'defense']
+    if ds: return r.choice(ds)
+    if not spec['assets']: spec['assets'].append(_new_asset('T0'))
+    a = r.choice(spec['assets'])
+    if not a['attackSteps']: a['attackSteps'].append(_new_asset('')['attackSteps'][0])
+    st = r.choice(a['attackSteps']); st['type'] = 'defense'; return st
+
+def _new_asset(name):
+    return {'name': name, 'meta': {}, 'category': 'C', 'isAbstract': False, 'superAsset': None, 'variables': [],
+            'attackSteps': [{'name': 'd0', 'meta': {}, 'type': 'defense', 'tags': [], 'risk': None,
+                             'ttc': {'type': 'function', 'name': 'Enabled', 'arguments': []}, 'requires': None, 'reaches': None}]}
+
+ODD = {
+    # a defense that takes the place of a fixed property of the class (NOTES_classes F2) or has the name of a schema keyword
+    'defense-named-id': lambda r, sp: _a_defense(r, sp).__setitem__('name', 'id'),
+    'defense-named-type': lambda r, sp: _a_defense(r, sp).__setitem__('name', 'type'),
+    'defense-named-properties': lambda r, sp: _a_defense(r, sp).__setitem__('name', 'properties'),
+    # TTC values that are not a dictionary / None: falsy ones give the default 0.0, true ones raise AttributeError (`.get`)
+    'ttc-int': lambda r, sp: _a_defense(r, sp).__setitem__('ttc', r.choice([5, 1, -1])),
+    'ttc-zero': lambda r, sp: _a_defense(r, sp).__setitem__('ttc', r.choice([0, 0.0, False, '', [], {}])),
+    'ttc-str': lambda r, sp: _a_defense(r, sp).__setitem__('ttc', 'Enabled'),
+    'ttc-list': lambda r, sp: _a_defense(r, sp).__setitem__('ttc', [{'name': 'Enabled'}]),
+    'ttc-float': lambda r, sp: _a_defense(r, sp).__setitem__('ttc', r.choice([2.5, 1e-300, 0.001])),
+    'ttc-true': lambda r, sp: _a_defense(r, sp).__setitem__('ttc', True),
+    'ttc-odd-name': lambda r, sp: _a_defense(r, sp).__setitem__('ttc', r.choice([{'name': None}, {'name': 'enabled'}, {'name': ['Enabled']},
+                                   {'name': 'Enabled'}, {'Name': 'Enabled'}, {'name': 1}, {'name': {'name': 'Enabled'}}, {'name': 'Enabled', 'x': 1.5}])),
+    # names
+    'duplicate-asset': lambda r, sp: sp['assets'].append(copy.deepcopy(r.choice(sp['assets']))),
+    'asset-named-LanguageAsset': lambda r, sp: sp['assets'].append(_new_asset(r.choice(['LanguageAsset', 'LanguageAssociation', 'LanguageObject']))),
+    'asset-odd-name': lambda r, sp: sp['assets'].append(_new_asset(r.choice(['', 'a b', 'Ünï-cødé', 'q"uote', 'back\\slash', 'new\nline', 'definitions', 'T0_T1']))),
+    'asset-name-slash': lambda r, sp: sp['assets'].append(_new_asset('a/b')),
+    'association-named-as-asset': lambda r, sp: r.choice(sp['associations']).__setitem__('name', r.choice(sp['assets'])['name']) if sp['associations'] else None,
+    'association-odd-name': lambda r, sp: r.choice(sp['associations']).__setitem__('name', r.choice(['LanguageAssociation', 'definitions', 'oneOf', 'A_b', '', 'Assoc0_T0_T1'])) if sp['associations'] else None,
+    'association-repeated': lambda r, sp: sp['associations'].append(copy.deepcopy(r.choice(sp['associations']))) if sp['associations'] else None,
+    'association-flipped-twin': lambda r, sp: sp['associations'].append(dict(copy.deepcopy(a := r.choice(sp['associations'])), leftAsset=a['rightAsset'], rightAsset=a['leftAsset'])) if sp['associations'] else None,
+    'field-odd-name': lambda r, sp: r.choice(sp['associations']).__setitem__(r.choice(['leftField', 'rightField']), r.choice(['definitions', 'properties', 'title', '', 'maxItems'])) if sp['associations'] else None,
+    'same-field-on-both-ends': lambda r, sp: (lambda a: a.__setitem__('rightField', a['leftField']))(r.choice(sp['associations'])) if sp['associations'] else None,
+    # maxima that are not a natural number / None (the library refuses most of them: the schema is still compared)
+    'maximum-odd': lambda r, sp: r.choice(sp['associations'])[r.choice(['leftMultiplicity', 'rightMultiplicity'])].__setitem__('max', r.choice([True, False, 1.5, 2.0, '2', -1, 10 ** 20, [1]])) if sp['associations'] else None,
+    # nothing to generate: the empty `oneOf` lists are deleted
+    'no-associations': lambda r, sp: sp.__setitem__('associations', []),
+    'no-assets': lambda r, sp: (sp.__setitem__('associations', []), sp.__setitem__('assets', [])),
+}
+
+def odd_language(r):
+    spec = _bare(r)
+    kinds = []
+    for k in r.sample(sorted(ODD), r.choice([1, 1, 2, 3])):
+        try: ODD[k](r, spec); kinds.append(k)
+        except IndexError: pass                      # nothing left to apply it to (after `no-assets`)
+    return spec, kinds
+
+def run_odd(seed, n, res):
+    """implementation vs generated code on `n` odd languages (no hand model: they are outside its hypotheses)"""
+    from maltoolbox.language import LanguageGraph
+    rnd = random.Random(seed ^ 0xC1A55)
+    cases = []
+    for _ in range(n):
+        spec, kinds = odd_language(random.Random(rnd.getrandbits(48)))
+        try: lg = LanguageGraph(copy.deepcopy(spec))
+        except Exception as e:
+            res.bump(f'odd_language_graph_raises:{type(e).__name__}'); continue
+        cases.append((spec, kinds, lg, signatures(spec)))
+    gen = run_driver([{'op': 'gen_classes', 'case': i, 'lg': lg_payload(lg), 'sigs': sg} for i, (sp, k, lg, sg) in enumerate(cases)])
+    import gc
+    for k, ((spec, kinds, lg, sigs), g) in enumerate(zip(cases, gen)):
+        if k % GC_EVERY == 0: gc.collect()
+        res.evaluations += 1; res.bump('generated_code_odd_languages_compared')
+        if 'error' in g:
+            res.violations.append(genexec.driver_error('C06', g['error'], {'spec': spec, 'odd': kinds})); continue
+        real = real_factory(lg, sigs)
+        how = real['error'] or (('library:' + real['pjs_error']) if real['pjs_error'] else 'built')
+        for k in kinds: res.bump(f'odd:{k} -> {how}')
+        if real['sigs']: res.bump('generated_code_signatures_compared', len(sigs))
+        d = generated_differs(real, g['model']['fromLG'])
+        if d:
+            res.violations.append(genexec.divergence('C06', 'gen_classes', f'{d[0]} of an odd language ({", ".join(kinds)})',
+                                                     {'spec': spec, 'odd': kinds, 'difference': d[1]}))
+
+def genexec_measure(seed: int, n: int) -> dict:
+    """the seeded-defect experiment (`tools/genexec_seeded.py`): `n` languages of the quick check on the (mutated)
+    implementation, the hand model (`classes`) and the (regenerated) factory (`gen_classes`).  impl != hand: `check_inventory`
+    reports something (factory raises, class table differs from the declaration / the model); gen = the generated factory on
+    the language graph read off the real object (`fromLG`), compared on error class, ordered schema and signature answers.
+    Then one history per language (`model_hist` / `gen_model_hist`, classified as the C05 family of the tool; the `hist_*`
+    counters are the share of the histories in the main counters).  Extra counters: `gen_lang_ne_impl` (the generated factory on the language graph built from the language, `fromLang`),
+    `gen_table_ne_impl` (schema equal but the class table `Py/AbsClasses.lean` reads differs from the one the real classes
+    show), `odd_cases` / `odd_gen_ne_impl` (the odd languages, no hand model)"""
+    from maltoolbox.language import LanguageGraph
+    rnd = random.Random(seed)
+    st = {'cases': 0, 'impl_ne_hand': 0, 'gen_follows_impl': 0, 'gen_ne_impl': 0, 'impl_crash': 0, 'gen_lang_ne_impl': 0,
+          'gen_table_ne_impl': 0, 'odd_cases': 0, 'odd_gen_ne_impl': 0, 'examples': []}
+    def note(kind, info):
+        if len([e for e in st['examples'] if e[0] == kind]) < 2: st['examples'].append([kind, info])
+    specs = []
+    for i in range(n):
+        r = random.Random(rnd.getrandbits(48))
+        specs.append(LangGen(r, knobs={'dup_assoc_names': 0.5, 'zero_mult': 0.12, 'composite_def_ttc': 0.3}).gen())
+    lgs, sigs = [], [signatures(s) for s in specs]
+    for s in specs:
+        try: lgs.append(LanguageGraph(copy.deepcopy(s)))
+        except Exception as e: lgs.append(e)
+    def twin(q):
+        q['sigs'] = sigs[q['case']]
+        if not isinstance(lgs[q['case']], Exception): q['lg'] = lg_payload(lgs[q['case']])
+        return q
+    hand, gen = genexec.run_both([{'op': 'classes', 'case': i, 'lang': lang_payload(s)} for i, s in enumerate(specs)], 'gen_classes', rewrite=twin)
+    import gc
+    for i, spec in enumerate(specs):
+        if i % GC_EVERY == 0: gc.collect()           # see `run`
+        st['cases'] += 1
+        if isinstance(lgs[i], Exception):
+            st['impl_crash'] += 1; note('impl-crash', f'LanguageGraph(): {type(lgs[i]).__name__}'); continue
+        if 'error' in hand[i] or 'error' in gen[i]:
+            note('driver-error', [hand[i].get('error'), gen[i].get('error')]); continue
+        mo = hand[i]['model']
+        v = check_inventory(spec, mo)
+        real = real_factory(lgs[i], sigs[i])
+        d = generated_differs(real, gen[i]['model']['fromLG'])
+        if generated_differs(real, gen[i]['model']['fromLang']): st['gen_lang_ne_impl'] += 1
+        if d:
+            st['gen_ne_impl'] += 1; note('gen!=impl', {'spec': spec, 'what': d[0], 'difference': d[1]})
+        elif not real['error']:
+            try:
+                assets, assocs = class_inventory(spec)
+                t = generated_differs(real, gen[i]['model']['fromLG'], ([[a[0], a[1]] for a in assets], [r[:7] for r in assocs]), len(spec['associations']))
+                if t: st['gen_table_ne_impl'] += 1; note('gen-table!=impl', {'what': t[0], 'difference': t[1]})
+            except Exception: pass
+        if v:
+            st['impl_ne_hand'] += 1
+            if not d:
+                st['gen_follows_impl'] += 1; note('gen=impl!=hand', {'impl vs hand': v.what[:300], 'fingerprint': v.fingerprint})
+    # the histories of the property (C06 also checks what a model accepts): implementation / hand model (`model_hist`) /
+    # generated code of the `model` domain (`gen_model_hist`), classified like the C05 family of the tool; every history is
+    # one more case
+    hists = []
+    for spec in specs:
+        r = random.Random(rnd.getrandbits(48))
+        hists.append(Gen(r, spec, WEIGHTS, odd_defenses=True).gen(r.randint(6, 40)))
+    hand, gen = genexec.run_both([{'op': 'model_hist', 'case': i, 'lang': lang_payload(s), 'ops': hists[i]} for i, s in enumerate(specs)], 'gen_model_hist')
+    for k in ('hist_cases', 'hist_impl_ne_hand', 'hist_gen_follows_impl', 'hist_gen_ne_impl', 'raised_halfway'): st[k] = 0
+    for ci, spec in enumerate(specs):
+        if ci % GC_EVERY == 0: gc.collect()
+        st['cases'] += 1; st['hist_cases'] += 1
+        if 'error' in hand[ci] or 'error' in gen[ci]:
+            note('driver-error', [hand[ci].get('error'), gen[ci].get('error')]); continue
+        try: im = Impl(spec)
+        except Exception as e:
+            st['impl_crash'] += 1; note('impl-crash', f'Impl(): {type(e).__name__}'); continue
+        for i, op in enumerate(hists[ci]):
+            if op['k'] == 'add_asset' and any(d[1] == 'nan' for d in op.get('defenses', [])):
+                st['hist_cut_at_nan'] = st.get('hist_cut_at_nan', 0) + 1; break      # recorded finding (NaN passes the range check of the library): not a step to classify
+            try: sp = im.step(op)
+            except Exception as e:
+                st['impl_crash'] += 1; note('impl-crash', f'{type(e).__name__} at {op["k"]}'); break
+            mo, go = hand[ci]['model'][i], gen[ci]['model'][i]
+            if go['err'] and go['err'].startswith('skip:'): break
+            a = [sp['err'] is not None, canon_obs(sp['obs'])]
+            b = [mo['err'] is not None, canon_obs(mo['obs'])]
+            g = [go['err'] is not None, canon_obs(go['obs'])]
+            if a != g and a[0] and g[0]:
+                # both raise, the states differ: the implementation raised half-way, the translation drops the heap of a raising call
+                st['raised_halfway'] += 1
+                if not b[0]: st['impl_ne_hand'] += 1; st['gen_follows_impl'] += 1; st['hist_impl_ne_hand'] += 1; st['hist_gen_follows_impl'] += 1
+                note('raised-half-way', {'step': i, 'op': op, 'err': sp['err'], 'hand_err': mo['err']}); break
+            if a != g:
+                st['gen_ne_impl'] += 1; st['hist_gen_ne_impl'] += 1
+                note('gen!=impl', {'spec': spec, 'ops': hists[ci][:i + 1], 'impl': [sp['err'], sp['obs']], 'gen': [go['err'], go['obs']]})
+            if a != b:
+                st['impl_ne_hand'] += 1; st['hist_impl_ne_hand'] += 1
+                if a == g:
+                    st['gen_follows_impl'] += 1; st['hist_gen_follows_impl'] += 1
+                    note('gen=impl!=hand', {'step': i, 'op': op, 'impl_err': sp['err'], 'hand_err': mo['err'], 'gen_err': go['err']})
+            if a != b or a != g: break
+    res = Result(); run_odd(seed, max(20, n // 3), res)
+    st['odd_cases'] = res.distribution.get('generated_code_odd_languages_compared', 0)
+    st['odd_gen_ne_impl'] = len(res.violations)
+    for x in res.violations[:2]: note('gen!=impl', {'odd': x.replay.get('odd'), 'what': x.what[:200], 'difference': x.replay.get('difference')})
+    return st
 
 def run(seed, tier, lean) -> Result:
     rnd = random.Random(seed)
@@ -141,16 +456,50 @@ def run(seed, tier, lean) -> Result:
         r = random.Random(rnd.getrandbits(48))
         spec = LangGen(r, knobs={'dup_assoc_names': 0.5, 'zero_mult': 0.12, 'composite_def_ttc': 0.3}).gen()
         cases.append((spec, Gen(r, spec, WEIGHTS, odd_defenses=True).gen(r.randint(6, 40))))
-    model = inv = None
+    model = inv = gen = gmodel = None
     if lean['build_ok']:
-        model = run_driver([{'op': 'model_hist', 'case': i, 'lang': lang_payload(s), 'ops': o} for i, (s, o) in enumerate(cases)])
-        inv = run_driver([{'op': 'classes', 'case': i, 'lang': lang_payload(s)} for i, (s, o) in enumerate(cases)])
+        model, gmodel = genexec.run_both([{'op': 'model_hist', 'case': i, 'lang': lang_payload(s), 'ops': o} for i, (s, o) in enumerate(cases)],
+                                         'gen_model_hist', every=HIST_GEN_EVERY)
+        # third column: the real language graphs are built first (the generated factory is handed what the real one is handed)
+        from maltoolbox.language import LanguageGraph
+        lgs, sigs = [], [signatures(s) for s, o in cases]
+        for s, o in cases:
+            try: lgs.append(LanguageGraph(copy.deepcopy(s)))
+            except Exception: lgs.append(None)            # reported by check_inventory below
+        def twin(q):
+            q['sigs'] = sigs[q['case']]
+            if lgs[q['case']] is not None: q['lg'] = lg_payload(lgs[q['case']])
+            return q
+        inv, gen = genexec.run_both([{'op': 'classes', 'case': i, 'lang': lang_payload(s)} for i, (s, o) in enumerate(cases)], 'gen_classes', rewrite=twin)
+    import gc
     for i, (spec, ops) in enumerate(cases):
         res.evaluations += 1
+        # the classes python_jsonschema_objects builds are garbage in reference cycles; as long as they wait for the cyclic
+        # collector every `issubclass` of the library against an ABC walks them (measured: 3.8 M instead of 1.9 M subclass checks,
+        # 50 s instead of 20 s, once the answers of the generated column made full collections rarer)
+        if i % GC_EVERY == 0: gc.collect()
         v = check_inventory(spec, inv[i].get('model') if inv else None)
         if v: res.violations.append(v); continue
+        if gen is not None and gen[i] is not None and lgs[i] is not None:
+            # hand model = implementation = declaration here (check_inventory passed): the class table of the hand model IS the
+            # real one, the generated code must give it too - and the real schema, signature answers, error class
+            if 'error' in gen[i]:
+                res.violations.append(genexec.driver_error('C06', gen[i]['error'], {'spec': spec}))
+            else:
+                real = real_factory(lgs[i], sigs[i]); mo = inv[i]['model']
+                for side in ('fromLG', 'fromLang'):
+                    d = generated_differs(real, gen[i]['model'][side], (mo['assets'], mo['assocs']), len(spec['associations']))
+                    if d:
+                        res.violations.append(genexec.divergence('C06', 'gen_classes', f'{d[0]} (language graph {"read off the real object" if side == "fromLG" else "built from the language as the ties build it"})',
+                                                                 {'spec': spec, 'side': side, 'difference': d[1]}))
+                        break
+                res.bump('generated_code_schemas_compared', 2); res.bump('generated_code_signatures_compared', 2 * len(sigs[i]))
         mo = model[i].get('model') if model is not None else None
-        bad = run_history(spec, ops, mo, res)
+        go = None
+        if gmodel is not None and gmodel[i] is not None:
+            if 'error' in gmodel[i]: res.violations.append(genexec.driver_error('C06', gmodel[i]['error'], {'spec': spec, 'ops': ops}))
+            else: go = gmodel[i]['model']
+        bad = run_history(spec, ops, mo, res, go)
         names = [a['name'] for a in spec['associations']]
         if len(set(names)) < len(names) or any(a['superAsset'] for a in spec['assets']): res.nontrivial.add(canon_hash([spec, ops]))
         if bad:
@@ -158,10 +507,14 @@ def run(seed, tier, lean) -> Result:
             if kind == 'oracle':
                 res.violations.append(Violation(what=f'{info[0]} after {ops[at]["k"]}', fingerprint='C06:' + info[0][:50],
                                                 replay={'spec': spec, 'ops': ops[:at + 1], 'problems': info}))
+            elif kind == 'gen-diverge':
+                res.violations.append(genexec.divergence('C06', ops[at]['k'], f'after step {at} ({ops[at]["k"]}) of a history',
+                                                         {'spec': spec, 'ops': ops[:at + 1], **info}))
             else:
                 res.violations.append(Violation(what=f'implementation and Lean model disagree on accepting {ops[at]["k"]} (impl {info["impl_err"]}, model {info["model_err"]})',
                                                 fingerprint='C06:model-divergence:' + ops[at]['k'], replay={'spec': spec, 'ops': ops[:at + 1], **info}, no_failing_input=True))
         if len(res.samples) < 2: res.samples.append({'classes': inv[i].get('model') if inv else None, 'ops': ops[:4]})
+    if lean['build_ok']: run_odd(seed, 100 if tier == 'quick' else 600, res)
     return res
 
 def replay(path):
